@@ -96,6 +96,7 @@ TECHNIQUE = ("Lean 4 proof over edge formulas translated from the Python AST (py
 TRUSTED = [
     "harness/py2lean.py translate_fn/translate_expr: Python AST of the 17 `_a_to_b` methods, M2E pieces and 13 Infos properties -> Generated/Forms{F,R}.lean on every run",
     "harness/props/C01.py m2e_pieces: checks that the M2E loop and the mean->eccentric edge still have exactly the modelled shape (AST equality), else the run is reported broken",
+    "harness/props/C01.py regen_forms_graph: rewrites the forms part of Generated/Graphs.lean from the links recorded by harness/extract_graphs.py (as C20 does), reports a graph that is not a tree",
     "harness/props/C01.py sv_tables: reads the order of the effects of the form setter, the frame setter and copy, and the two keys of the infos property, from the AST into Generated/SVTables.lean; "
     "checks by AST equality that Infos.__init__/kep/sphe/mu/r, Form.__call__ and Frame.transform have the modelled shape, else the run is reported broken",
     "lean/templates/Forms.tpl: hand-written fuel loop, 6-list plumbing, name dispatch (tied by the correspondence run)",
@@ -115,7 +116,7 @@ NOT_COVERED = [
     "termination of the Kepler iteration (the model carries fuel; the code's loop is unbounded): correspondence with fuel 10^4 on all start branches and up to 60 revolutions, watchdog oracle incl. the pinned former non-returning inputs",
     "definition-truth of cartesian->keplerian (a from energy, e = |eccentricity vector|, node, perigee) is checked by the oracle against an independent numpy computation, not proved",
     "spherical rates as time derivatives (HasDerivAt) not proved; oracle uses central differences",
-    "conditioning near e->0, i->0, e->1 (excluded by the quantifier); rounding",
+    "conditioning near e->0, i->0, e->1 (excluded by the quantifier); rounding. Observed, outside the quantifier: for e < ~1e-8 cartesian->keplerian computes e = sqrt(1 - h^2/(a mu)) from a rounded difference and can return NaN; the nearly-circular sweep therefore starts at e = 1e-7, where 1e-6 is attainable in doubles",
     "an Infos helper KEPT by the caller (`inf = sv.infos`) across an in-place change of sv: the helper memoises its keplerian / spherical views (modelled: Handle) while reading mu live; the property is checked for values read through `sv.infos` after the change, not through a helper obtained before it",
     "views sharing the buffer (`sv[:]`, `sv.view()`), whose form label can diverge from the shared six numbers; writes of names that are no orbital element (stored in _data)",
     "frame changes whose transform raises (unlinked centres, Hill frame): only the normal path of try/finally is modelled (oracle: the object is unchanged after such a change)",
@@ -134,7 +135,7 @@ RULE = ("correspondence: 2500 (quick) / 40000 (thorough) orbits, alternating ell
         "the original) over 16 frames about Earth, Moon, Sun, Mars (constant-offset centres and the moving Moon / Sun of beyond.env.solarsystem), every state inside the "
         "quantifier, compared after every operation (six numbers, outcome, 14 infos values) with the Lean state machine; non-trivial = every case; "
         "distinct = distinct request line. oracle: mean->cartesian vs an independent perifocal construction, 9 forms x 6 numbers vs textbook "
-        "definitions computed with numpy, 10x10 round trips (1e-6 r, 1e-6 v), Infos relations, Kepler residual of Form.M2E; 70 (quick) / 500 (thorough) random + 15 pinned "
+        "definitions computed with numpy, 10x10 round trips (1e-6 r, 1e-6 v), Infos relations — on 40 (quick) / 400 (thorough) orbits of the quantifier plus 15 / 150 nearly circular ones (1e-7 <= e < 1e-4, same tolerances, angle tolerances scaled by 1/e) —, Kepler residual of Form.M2E; every library conversion under a 1 s watchdog, non-return and non-finite results inside the domain are failures; 70 (quick) / 500 (thorough) random + 15 pinned "
         "operation histories: after every operation the six numbers vs the textbook elements of the reference cartesian state for the mu of the CURRENT centre, "
         "position/velocity directly and through another form, every infos quantity vs its defining relation and vs a freshly constructed object, the untouched original of a copy")
 
@@ -208,25 +209,55 @@ class Hang(Exception):
     pass
 
 
+class HangBudget(Exception):
+    """too many library calls did not return: the sweep stops looking further (the failures are recorded)"""
+
+
+HANGS = {"n": 0, "budget": 6}
+
+
+def note_hang():
+    HANGS["n"] += 1
+    if HANGS["n"] >= HANGS["budget"]:
+        raise HangBudget()
+
+
 class watchdog:
-    """raise Hang in the main thread if the body runs longer than `seconds` (Form.M2E used not to return for some inputs)"""
+    """raise Hang in the main thread if the body runs longer than `seconds` (a conversion loop of the library may not return);
+    may be nested: leaving an inner watchdog re-arms the outer one with the time it has left"""
 
     def __init__(self, seconds=2.0):
         self.s = seconds
 
     def __enter__(self):
         import signal
+        import time
 
         def h(*a):
             raise Hang()
+        self.t0 = time.time()
+        self.outer = signal.getitimer(signal.ITIMER_REAL)[0]
         self.old = signal.signal(signal.SIGALRM, h)
-        signal.setitimer(signal.ITIMER_REAL, self.s)
+        signal.setitimer(signal.ITIMER_REAL, self.s if not self.outer else min(self.s, self.outer))
 
     def __exit__(self, *a):
         import signal
+        import time
         signal.setitimer(signal.ITIMER_REAL, 0)
         signal.signal(signal.SIGALRM, self.old)
+        if self.outer:
+            signal.setitimer(signal.ITIMER_REAL, max(1e-3, self.outer - (time.time() - self.t0)))
         return False
+
+
+def convert_guarded(sv, form, seconds=1.0):
+    """sv.copy(form=form) as a float array, or None if the conversion does not return within `seconds`"""
+    import numpy as np
+    try:
+        with watchdog(seconds), np.errstate(all="ignore"):
+            return sv.copy(form=form)
+    except Hang:
+        return None
 
 
 def guarded_m2e(e, M):
@@ -458,7 +489,7 @@ def orbit_checks(out, fr, k, hyper, a, e, i, Om, om, M, EH):
     truth = truth_cartesian(mu, a, e, i, Om, om, nu)
     rs, vs = np.linalg.norm(truth[:3]), np.linalg.norm(truth[3:])
     inp = {"body": fr.center.body.name, "a": a, "e": e, "i": i, "Omega": Om, "omega": om, "M": M, "E_or_H": EH}
-    conic = "hyp" if hyper else "ell"
+    conic = ("hyp" if hyper else "ell") + ("-small-e" if e < 1e-4 * (1 - 1e-9) else "")
     # 0. the mean-anomaly state, converted to cartesian by the code, is the independently constructed state
     s0 = StateVector([a, e, i, Om, om, M], date, "keplerian_mean", fr)
     with np.errstate(all="ignore"):
@@ -482,31 +513,49 @@ def orbit_checks(out, fr, k, hyper, a, e, i, Om, om, M, EH):
     for form in FORMS[1:]:
         if not defined_for(form, hyper):
             continue
-        with np.errstate(all="ignore"):
-            got = arr(cart.copy(form=form))
+        got = convert_guarded(cart, form)
         out.count(key=("def", form, k, a, e, nu), kind="definition-" + form, conic=conic)
+        if got is None:
+            out.fail(f"no-return-cartesian-{form}-{conic}", f"cartesian -> {form} does not return within 1 s for a state inside the property's domain",
+                     dict(inp, cartesian=[float(x) for x in truth]))
+            note_hang()
+            continue
+        got = arr(got)
         for idx, kname, g, exp in definition_mismatches(form, got, d, hyper, a, e, i, rs, vs):
-            fam = "mean-circular-hyperbolic-M-mod-2pi" if (hyper and kname == "α") else f"definition-{form}-{kname}-{conic}"
+            fam = f"definition-{form}-{kname}-{conic}"
+            if not math.isfinite(g):
+                fam += "-non-finite"
+            elif hyper and kname == "α":
+                fam = "mean-circular-hyperbolic-M-mod-2pi"
             out.fail(fam, f"{form}[{idx}] is not the textbook value of {kname} computed from the cartesian state",
                      dict(inp, cartesian=[float(x) for x in truth]), observed=g, expected=float(exp))
     # 2. round trips over all ordered pairs
     for src in FORMS:
         if not defined_for(src, hyper):
             continue
-        with np.errstate(all="ignore"):
-            sx = cart.copy(form=src)
+        sx = convert_guarded(cart, src)
+        if sx is None:
+            continue      # reported by the definition check above
         for dst in FORMS:
             if dst == src or not defined_for(dst, hyper):
                 continue
-            with np.errstate(all="ignore"):
-                back = sx.copy(form=dst).copy(form=src)
-                cb = arr(back.copy(form="cartesian"))
             out.count(key=("rt", src, dst, k, a, e, nu), kind=f"roundtrip-{conic}", pair=f"{src[:9]}>{dst[:9]}")
+            back = sx
+            for step in (dst, src, "cartesian"):
+                back = convert_guarded(back, step)
+                if back is None:
+                    break
+            if back is None:
+                out.fail(f"no-return-roundtrip-{src}-{dst}-{conic}", f"{src} -> {dst} -> {src} -> cartesian: a conversion does not return within 1 s for a state inside the property's domain",
+                         dict(inp, cartesian=[float(x) for x in truth], src=src, dst=dst))
+                note_hang()
+                continue
+            cb = arr(back)
             if not (np.all(np.isfinite(cb)) and np.linalg.norm(cb[:3] - truth[:3]) <= 1e-6 * rs and np.linalg.norm(cb[3:] - truth[3:]) <= 1e-6 * vs):
-                fam = f"roundtrip-{src}-{dst}-{conic}"
+                fam = f"roundtrip-{src}-{dst}-{conic}" + ("" if np.all(np.isfinite(cb)) else "-non-finite")
                 if hyper and not np.all(np.isfinite(cb)) and abs(start_value(e, d["M"])) > 709.0:
                     fam = "m2e-hyperbolic-start-overflow"
-                elif hyper and "keplerian_mean_circular" in (src, dst):
+                elif hyper and "keplerian_mean_circular" in (src, dst) and np.all(np.isfinite(cb)):
                     fam = "mean-circular-hyperbolic-M-mod-2pi"
                 out.fail(fam, f"{src} -> {dst} -> {src} does not return the same position and velocity",
                          dict(inp, cartesian=[float(x) for x in truth], src=src, dst=dst), observed=[float(x) for x in cb], expected=[float(x) for x in truth])
@@ -533,18 +582,27 @@ def oracle(ctx, widened):
     from beyond.dates import Date
     date = Date(2020, 1, 1)
     N = 400 if big else 40
-    for _ in range(N):
-        k, hyper, a, e, i, Om, om = gen_elements(rng)
-        M, EH = gen_anomaly(rng, hyper, e)
-        try:
-            with watchdog(10.0):
-                orbit_checks(out, frs[k], k, hyper, a, e, i, Om, om, M, EH)
-        except Hang:
-            out.fail("m2e-elliptic-no-return" if not hyper else "m2e-hyperbolic-no-return", "a conversion of this state does not return within 10 s (Kepler loop)",
-                     {"body": frs[k].center.body.name, "a": a, "e": e, "i": i, "Omega": Om, "omega": om, "M": M, "E_or_H": EH})
+    NS = 150 if big else 15     # nearly circular orbits, 1e-7 <= e < 1e-4: the clauses whose tolerance is attainable there (see orbit_checks)
+    HANGS["n"] = 0
+    try:
+        for n in range(N + NS):
+            k, hyper, a, e, i, Om, om = gen_elements(rng, conic=None if n < N else False)
+            if n >= N:
+                e = rng.choice([1e-7, 1e-6, 9.9e-6, 1e-5, 5e-5]) if rng.random() < 0.2 else 10 ** rng.uniform(-7, -4)
+            M, EH = gen_anomaly(rng, hyper, e)
+            try:
+                with watchdog(10.0):
+                    orbit_checks(out, frs[k], k, hyper, a, e, i, Om, om, M, EH)
+            except Hang:
+                out.fail("m2e-elliptic-no-return" if not hyper else "m2e-hyperbolic-no-return", "a conversion of this state does not return within 10 s (Kepler loop)",
+                         {"body": frs[k].center.body.name, "a": a, "e": e, "i": i, "Omega": Om, "omega": om, "M": M, "E_or_H": EH})
+                note_hang()
+    except HangBudget:
+        out.tally(f"orbit sweep stopped early: {HANGS['n']} library calls did not return (each one recorded as a failing input)")
     # 4. Kepler equation through the public helper, all start branches, incl. the overflow region named by lead 18
     pinned = [(False, 0.826, 25.953, None), (False, 0.9, 100 * math.pi + 0.3, None), (False, 0.97, -31.0, None), (True, 1.2, 720.0, None)]
     cases = pinned + [None] * (2000 if big else 300)
+    m2e_hangs = 0
     for c in cases:
         if c is None:
             hyper = rng.random() < 0.5
@@ -557,6 +615,10 @@ def oracle(ctx, widened):
         if got is None:
             out.fail("m2e-elliptic-no-return" if not hyper else "m2e-hyperbolic-no-return", "Form.M2E does not return (Newton iteration cycles or wanders)",
                      {"e": e, "M": M, "true_E_or_H": EH}, observed="no return within 2 s", expected=EH)
+            m2e_hangs += 1
+            if m2e_hangs >= HANGS["budget"]:
+                out.tally("M2E sweep stopped early: Form.M2E did not return several times (each one recorded as a failing input)")
+                break
             continue
         res = (e * math.sinh(got) - got - M) if hyper else (got - e * math.sin(got) - M)
         if not (math.isfinite(got) and abs(res) <= 1e-6 * max(1.0, abs(M))):
@@ -567,13 +629,25 @@ def oracle(ctx, widened):
     #    setters, copy(frame=, form=), infos reads), several central bodies: every observable equals the pure function of the current state
     hf = hist_frames()
     skipped = []
-    for n in range((500 if big else 70) + 1):
-        try:
-            for init, ops in ([gen_history(rng, hf, rng.randint(3, 14))] if n else pinned_histories(hf)):
-                run_history(init, ops, hf, out)
-        except Exception as ex:      # the reference is built with conversions of fresh objects: a library whose conversions are broken can make that impossible
-            skipped.append(repr(ex))
-            out.tally("history skipped: the reference could not be built (a conversion of a fresh object failed)")
+    HANGS["n"] = 0
+    try:
+        for n in range((500 if big else 70) + 1):
+            try:
+                with watchdog(8.0):
+                    todo = [gen_history(rng, hf, rng.randint(3, 14))] if n else pinned_histories(hf)
+                for init, ops in todo:
+                    with watchdog(8.0 + len(ops)):
+                        run_history(init, ops, hf, out)
+            except Hang:
+                out.fail("history-no-return", "building or running an operation history does not return (a conversion of the library loops)", {"history": n})
+                note_hang()
+            except HangBudget:
+                raise
+            except Exception as ex:      # the reference is built with conversions of fresh objects: a library whose conversions are broken can make that impossible
+                skipped.append(repr(ex))
+                out.tally("history skipped: the reference could not be built (a conversion of a fresh object failed)")
+    except HangBudget:
+        out.tally(f"history sweep stopped early: {HANGS['n']} histories did not return")
     if skipped and not out.failures:
         raise RuntimeError(f"{len(skipped)} histories could not be run and nothing else fails: {skipped[0]}")
     out.sample({"checks": "mean->cartesian vs textbook, definition truth of 9 forms, 10x10 round trips, infos relations, M2E residual, "
@@ -1344,7 +1418,67 @@ def lean_str_list(xs):
     return "[" + ", ".join('"' + x + '"' for x in xs) + "]"
 
 
+def forms_graph_from_source():
+    """the links between the forms in the order the source makes them (`A + B + …` at import time, recorded in a fresh
+    interpreter by harness/extract_graphs.py, as C20 does): (node names in order of first appearance, links as index pairs)"""
+    import json
+    import subprocess
+    import sys
+    p = subprocess.run([sys.executable, os.path.join(core.VERIF, "harness", "extract_graphs.py")],
+                       capture_output=True, text=True, timeout=300, env=dict(os.environ, VERIF_REPO=core.REPO))
+    if p.returncode != 0:
+        raise py2lean.Untranslatable("forms graph: " + p.stderr[-300:])
+    links = json.loads(p.stdout.strip().split("\n")[-1])["links"]
+    comp = {"cartesian"}
+    grown = True
+    while grown:
+        grown = False
+        for a, b in links:
+            if (a in comp) != (b in comp):
+                comp |= {a, b}
+                grown = True
+    names, hist = [], []
+    for a, b in links:
+        if a in comp:
+            for x in (a, b):
+                if x not in names:
+                    names.append(x)
+            hist.append((names.index(a), names.index(b)))
+    return names, hist
+
+
+def regen_forms_graph(ctx):
+    """rewrite the three `forms…` definitions of Generated/Graphs.lean (the file C20 generates) from the current source, so that
+    C20.forms_routing_exact / C01.forms_walk_unique / routes_mirror are re-checked against the graph this run sees.
+    A graph that is no longer a tree is reported (the theorems then fail to build, the routing model keeps its fuel)."""
+    names, hist = forms_graph_from_source()
+    path = os.path.join(core.LEAN, "BeyondVerif", "Generated", "Graphs.lean")
+    txt = open(path).read()
+    new = {"formsNames : List String": "[" + ", ".join(f'"{n}"' for n in names) + "]", "formsN : Nat": str(len(names)),
+           "formsHist : List (Nat × Nat)": "[" + ", ".join(f"({a}, {b})" for a, b in hist) + "]"}
+    for k, v in new.items():
+        txt, n = re.subn(r"def " + re.escape(k) + r" := [^\n]*", lambda m: f"def {k} := {v}", txt)
+        if n != 1:
+            raise py2lean.Untranslatable("Generated/Graphs.lean: no definition " + k)
+    ch = core.write_if_changed(path, txt)
+    und = {frozenset(e) for e in hist}
+    if len(und) != len(names) - 1 or len(und) != len(hist):
+        ctx.broken.append(f"extract: the forms graph is not a tree any more ({len(names)} forms, {len(hist)} links): between some forms there is more than one walk, "
+                          "forms_walk_unique (routing = the unique tree path) no longer holds")
+    return ["Generated/Graphs.lean"] if ch else []
+
+
 def extract(ctx):
+    graph_changed = regen_forms_graph(ctx)
+    try:
+        return graph_changed + _extract(ctx)
+    except Exception:
+        # the generated formula files stay those of the last successful extraction: make sure the driver is not used against them
+        ctx.edges = None
+        raise
+
+
+def _extract(ctx):
     src = open(FORMS_PY).read()
     tree = ast.parse(src)
     cls = py2lean.find_function(tree, "Form")
